@@ -63,6 +63,12 @@ def run(spec):
         col.case_index = idx
         col.events.clear()
         n_cases += 1
+        fam = case.get('fam') or case.get('kind') if isinstance(case, dict) else None
+        if isinstance(case, dict) and fam is None and isinstance(case.get('table'), dict):
+            fam = case['table'].get('fam')
+        if fam:
+            fam = str(fam).split(':')[0]
+            col.count('family:' + (fam[:3] if fam.startswith('EXH') else fam.rstrip('0123456789')))
         signal.setitimer(signal.ITIMER_VIRTUAL, cpu_limit)
         try:
             mod.run_case(concepts, case, spec)
